@@ -153,7 +153,7 @@ READ_RE = re.compile(r'==== (Read Memory|Reading FlipJump Variable|Read Memory F
 VAL_RE = re.compile(r'= (\d+)  \(or 0x')
 
 
-def run_session(path, image, answers, breakpoints, script, w, cmds, DEVICE, probe, handler=None):
+def run_session(path, image, answers, breakpoints, script, w, cmds, DEVICE, probe, handler=None, via_debug=None):
     from flipjump.interpreter import fjm_run
     from flipjump.interpreter.debugging.breakpoints import BreakpointHandler
     text = ''.join(cmds[c][0] + '\n' for c in script)
@@ -166,7 +166,14 @@ def run_session(path, image, answers, breakpoints, script, w, cmds, DEVICE, prob
     obs = {'exc': None}
     try:
         with watchdog(10.0):
-            st = fjm_run.run(path, breakpoint_handler=handler, io_device=dev, last_ops_debugging_list_length=None)
+            if via_debug is not None:
+                # the public wrapper flipjump.debug(): (debug file, addresses, labels, substrings, print_termination)
+                import flipjump
+                dbg_, addrs_, labels_, contains_, term_ = via_debug
+                st = flipjump.debug(path, dbg_, breakpoints_addresses=addrs_, breakpoints=labels_, breakpoints_contains=contains_, io_device=dev,
+                                    print_time=False, print_termination=term_)
+            else:
+                st = fjm_run.run(path, breakpoint_handler=handler, io_device=dev, last_ops_debugging_list_length=None)
         obs.update(cause=str(st.termination_cause), ops=st.op_counter, fault=st.memory_error_address)
     except Watchdog:
         obs['exc'] = 'Watchdog'
@@ -292,6 +299,8 @@ def work(task):
                               'model_pauses': exp['pauses'], 'model_reads': exp['reads'], 'end': exp['end']}
     if part == 0:
         label_set_sessions(path, image, answers, base, visited, w, cmds, probe, pname, sieve, stats)
+    if part == 1:
+        debug_route_sessions(path, image, answers, base, visited, w, cmds, probe, pname, sieve, stats)
     stats['states'] = len(states)
     return stats, sieve.result(), sample
 
@@ -360,6 +369,48 @@ def _label_set_sessions(dbg, table, path, image, answers, base, visited, w, cmds
                                'summary': f'w={w} {pname} substrings asked={list(sub)}: pauses {obs["pauses"]} instead of {exp["pauses"]}'})
 
 
+def debug_route_sessions(path, image, answers, base, visited, w, cmds, probe, pname, sieve, stats):
+    """the same sessions through the public wrapper flipjump.debug(): breakpoints given as addresses, as labels, as substrings and as every
+    mix of the three (also none at all: the run must simply finish), with and without the termination report"""
+    from fjv.enginecheck import scratch
+    from flipjump.utils.functions import save_debugging_labels
+    from fjv.asm import quiet
+    vs = [visited[min(k, len(visited) - 1)] for k in range(3)]
+    table = {'lab_a': vs[0], 'main.lab_b': vs[1], 'never': max(visited) + 4 * w}
+    dbg = scratch() / f'c15-{w}-debugroute.fjd'
+    save_debugging_labels(dbg, table)
+    cont = [i for i, c in enumerate(cmds) if c[0] == 'c'][0]
+    step = [i for i, c in enumerate(cmds) if c[0] == 's'][0]
+    addr_sets = [None, set(), {vs[2]}, {vs[0], max(visited) + 8 * w}]
+    label_sets = [None, set(), {'lab_a'}, {'main.lab_b', 'zz_none'}]
+    sub_sets = [None, {'lab_'}, {'zz_none'}]
+    for addrs, labs, subs in itertools.product(addr_sets, label_sets, sub_sets):
+        want = set(addrs or ()) | {table[n] for n in (labs or ()) if n in table} | {a for nm, a in table.items() if any(x in nm for x in (subs or ()))}
+        for script, term in (((cont,) * 6, False), ((step, cont, cont, cont, cont, cont), True)):
+            exp = model_session(image, answers, base, want, script, w, cmds)
+            with quiet():
+                obs = run_session(path, image, answers, want, script, w, cmds, DEVICE, probe, via_debug=(dbg, addrs, labs, subs, term))
+            stats['sessions'] += 1
+            stats['debug_route_sessions'] = stats.get('debug_route_sessions', 0) + 1
+            problems = []
+            if obs['exc']:
+                problems.append(('exception', None, obs['exc']))
+            if obs['pauses'] != exp['pauses']:
+                problems.append(('pauses', exp['pauses'], obs['pauses']))
+            if not obs['exc'] and exp['end'][0] == 'normal':
+                if (obs['cause'], obs['ops'], obs['fault']) != (base.cause, base.ops, base.fault):
+                    problems.append(('result differs from the undebugged run', (base.cause, base.ops, base.fault), (obs['cause'], obs['ops'], obs['fault'])))
+                if [tuple(x) for x in obs['io']] != [tuple(x) for x in base.io]:
+                    problems.append(('IO differs from the undebugged run', base.io, obs['io']))
+            if problems:
+                sieve.add({'kind': 'flipjump.debug(): the session differs from the debugger model', 'class': f'debug() route {problems[0][0]}',
+                           'case': {'w': w, 'program': pname, 'image': image.to_json(), 'answers': answers, 'label_table': table, 'debug_route': True,
+                                    'addresses': sorted(addrs) if addrs is not None else None, 'labels': sorted(labs) if labs is not None else None,
+                                    'substrings': sorted(subs) if subs is not None else None, 'print_termination': term, 'script': [cmds[c][0] for c in script]},
+                           'expected': {p_[0]: p_[1] for p_ in problems}, 'observed': {p_[0]: p_[2] for p_ in problems}, 'ref_trace': base.steps,
+                           'summary': f'w={w} {pname} flipjump.debug(addresses={addrs}, labels={labs}, substrings={subs}): {problems[0][0]} {problems[0][2]} instead of {problems[0][1]}'})
+
+
 DEVICE = None
 
 
@@ -418,9 +469,21 @@ def replay(args):
             handler = get_breakpoint_handler(dbg, None, set(c['labels_asked']), None)
         c['breakpoints'] = [c['label_table'][n] for n in c['labels_asked'] if n in c['label_table']]
         c['script_idx'] = [[x[0] for x in cmds].index(t) for t in c['script']]
+    via_debug = None
+    if c.get('debug_route'):
+        from flipjump.utils.functions import save_debugging_labels
+        from fjv.enginecheck import scratch
+        dbg = scratch() / 'replay.fjd'
+        save_debugging_labels(dbg, c['label_table'])
+        sets = [set(c[k]) if c[k] is not None else None for k in ('addresses', 'labels', 'substrings')]
+        via_debug = (dbg, sets[0], sets[1], sets[2], c['print_termination'])
+        t = c['label_table']
+        c['breakpoints'] = sorted(set(sets[0] or ()) | {t[n] for n in (sets[1] or ()) if n in t} | {a for nm, a in t.items() if any(x in nm for x in (sets[2] or ()))})
+        c['script_idx'] = [[x[0] for x in cmds].index(t_) for t_ in c['script']]
     script = tuple(c['script_idx'])
     exp = model_session(image, c['answers'], base, set(c['breakpoints']), script, w, cmds)
-    obs = run_session(write_image(image, 'replay.fjm'), image, c['answers'], set(c['breakpoints']), script, w, cmds, DEVICE, probe_words(image, base), handler=handler)
+    obs = run_session(write_image(image, 'replay.fjm'), image, c['answers'], set(c['breakpoints']), script, w, cmds, DEVICE, probe_words(image, base), handler=handler,
+                      via_debug=via_debug)
     print('reference trace:', base.steps, base.cause, base.ops)
     print('model   :', exp)
     print('observed:', {k: v for k, v in obs.items() if k != 'mem'})
